@@ -54,8 +54,15 @@ def _gen_tree(rng, depth, need_prior=True):
     if depth == 0 or (depth < 3 and rng.random() < 0.25):
         if need_prior or rng.random() < 0.6:
             lo = float(rng.uniform(0.5, 2)); hi = lo + float(rng.uniform(0.2, 1.5))
-            if rng.random() < 0.3:
+            r0 = rng.random()
+            if r0 < 0.3:
                 return {"t": "G+", "mu": float(rng.uniform(2, 3)), "sd": 0.01}, True
+            if r0 < 0.45:
+                # whole-number parameters written as Python ints (Uniform(1, 5, guess=3), Gaussian(3, 0.01)): the guess is an int
+                if rng.random() < 0.5:
+                    a = int(rng.integers(1, 4))
+                    return {"t": "Ui", "lo": a, "hi": a + int(rng.integers(2, 5)), "guess": a + 1}, True
+                return {"t": "Gi", "mu": int(rng.integers(2, 11)), "sd": 0.01}, True
             return {"t": "U", "lo": lo, "hi": hi}, True
         v = float(rng.uniform(0.5, 3))
         as_ = ["float", "int", "np.float64", "np.int64"][int(rng.integers(0, 4))]
@@ -76,8 +83,13 @@ def _gen_tree(rng, depth, need_prior=True):
             op = "+"
         if op == "**":
             # keep magnitudes tame: exponent is a small constant or a leaf
-            if rgt["t"] not in ("c", "U", "G+"):
+            if rgt["t"] not in ("c", "U", "G+", "Ui", "Gi"):
                 rgt, rpos = _gen_tree(rng, 0, need_prior=need_prior and not lp)
+            if lp and rng.random() < 0.35:
+                # integer exponents incl. negative and large ones (Python semantics: 3 ** -1 == 1/3, 10 ** 20 exact)
+                ev = float([-1, -2, -3, 20, 25, 0][int(rng.integers(0, 6))])
+                # (numpy refuses integer ** negative numpy-integer by design, so negative exponents are Python ints)
+                rgt, rpos = {"t": "c", "v": ev, "as": "int" if ev < 0 else ["int", "np.int64"][int(rng.integers(0, 2))]}, False
         pos = {"+": lpos and rpos, "-": False, "*": lpos and rpos, "/": lpos and rpos, "**": lpos}[op]
         return {"t": "bin", "op": op, "l": l, "r": rgt}, pos
     if r < 0.65:
@@ -130,6 +142,10 @@ def cases(tier, seed):
 
 def _mk(spec):
     from holopy.core.prior import Uniform, Gaussian, BoundedGaussian
+    if spec["t"] == "Ui":
+        return Uniform(int(spec["lo"]), int(spec["hi"]), guess=int(spec["guess"]))
+    if spec["t"] == "Gi":
+        return Gaussian(int(spec["mu"]), spec["sd"])
     if spec["t"] == "U":
         return Uniform(spec["lo"], spec["hi"])
     if spec["t"] in ("G", "G+"):
@@ -347,7 +363,7 @@ _UF = None
 def _eval(node, leaf):
     """Evaluate the tree; leaf(node) gives the value for a prior leaf."""
     t = node["t"]
-    if t in ("U", "G+"):
+    if t in ("U", "G+", "Ui", "Gi"):
         return leaf(node)
     if t == "c":
         v = node["v"]
@@ -393,7 +409,7 @@ def _zero_factor(node):
 
 def _leaves(node, out):
     t = node["t"]
-    if t in ("U", "G+"):
+    if t in ("U", "G+", "Ui", "Gi"):
         out.append(node)
     elif t == "neg":
         _leaves(node["x"], out)
@@ -422,8 +438,15 @@ def _run_expr(case):
     flags["is_prior"] = bool(isinstance(derived, Prior))
     if not isinstance(derived, Prior):
         return {"resid": resid, "flags": flags, "skipped": "no prior in tree"}
-    with np.errstate(all="ignore"):
-        gref = _eval(tree, lambda n: objs[id(n)].guess)
+    try:
+        with np.errstate(all="ignore"):
+            gref = _eval(tree, lambda n: objs[id(n)].guess)
+    except ValueError as e:
+        # numpy refuses (numpy integer) ** (negative integer); the same operation on the guesses inside HoloPy must then
+        # fail the same way -- it is the operation itself that is undefined, not the prior
+        if "negative integer powers" not in str(e):
+            raise
+        return {"resid": {}, "flags": {"undefined_integer_power_raises_too": _raises(ValueError, lambda: derived.guess)}, "skipped": "operation undefined in numpy"}
     if not np.all(np.isfinite(gref)) or abs(gref) > 1e100:
         return {"resid": {}, "flags": {}, "skipped": "reference not finite"}
     g = derived.guess
